@@ -153,6 +153,17 @@ var BVSolver = "z3-new"
 
 type Model map[string]uint64
 
+// AssertPermanent asserts terms at the base level (they stay across push/pop).
+func (s *Solver) AssertPermanent(as []*Term) {
+	if s.dead {
+		return
+	}
+	for _, a := range as {
+		s.define(a)
+		s.send("(assert " + refName(a) + ")\n")
+	}
+}
+
 // Check decides satisfiability of the conjunction of as. On sat the values of vars are returned.
 // Result is "sat", "unsat" or "unknown" (timeouts, solver errors and crashes are all "unknown").
 func (s *Solver) Check(as []*Term, vars []*Term) (string, Model) {
@@ -481,7 +492,11 @@ func (p *Pool) Solve(as []*Term, vars []*Term) (string, Model, string) {
 		}
 	}
 	s := p.Get(kind)
+	t0 := time.Now()
 	r, m := s.Check(as, vars)
+	if d := time.Since(t0); d > 2*time.Second && os.Getenv("VERIF_PROGRESS") != "" {
+		fmt.Fprintf(os.Stderr, "  slow query: %s %s %.1fs\n", kind, r, d.Seconds())
+	}
 	p.Put(s)
 	return r, m, kind
 }
